@@ -375,6 +375,11 @@ pub fn arg_json(f: &Forest, id: Id) -> Value {
     }
 }
 
+thread_local! {
+    /// when set, `call` performs the operator call twice on the same allocator and reports the second outcome
+    pub static REPEAT_IN_SAME_ALLOCATOR: std::cell::Cell<bool> = const { std::cell::Cell::new(false) };
+}
+
 pub struct Call {
     pub out: Outcome,
     /// classic serialisation of the result (bounded), when successful
@@ -395,7 +400,11 @@ pub fn call(
     let n = f.materialize(&mut a, args, &mut plan).ok()?;
     // sha256tree on a DAG does work proportional to the *expanded* tree: keep the budget finite
     let budget = if op.name == "sha256tree" { budget.min(300_000_000) } else { budget };
-    let out = call_op(&mut a, op.f, n, budget, flags);
+    let mut out = call_op(&mut a, op.f, n, budget, flags);
+    if REPEAT_IN_SAME_ALLOCATOR.with(|r| r.get()) {
+        // allocator history: the same call once more in the same allocator (caches, earlier failures)
+        out = call_op(&mut a, op.f, n, budget, flags);
+    }
     let result = out.node.and_then(|n| {
         let mut g = Forest::new();
         let id = g.import(&a, n);
